@@ -41,8 +41,11 @@ func isStringType(t types.Type) bool {
 }
 
 func init() {
-	reg(vsqlPath+".Rows", func(m *Machine, fr *frame, a []Value) Value {
-		r := &sqlRows{}
+	mkRows := func(m *Machine, fr *frame, a []Value) Value {
+		r := &sqlRows{errAt: -1}
+		if len(a) > 2 {
+			r.errAt = int(m.concInt(a[2]))
+		}
 		for _, c := range a[0].([]Value) {
 			s, ok := c.(Str).Concrete()
 			if !ok {
@@ -62,10 +65,16 @@ func init() {
 		m.rows[&cell] = r
 		m.stubs["model:database/sql.Rows over scripted rows (Next/Scan/Close/Err/Columns)"]++
 		return &cell
-	})
+	}
+	reg(vsqlPath+".Rows", mkRows)
+	reg(vsqlPath+".RowsFailingAt", mkRows)
 	reg("(*database/sql.Rows).Next", func(m *Machine, fr *frame, a []Value) Value {
 		r := m.sqlRowsOf(a[0])
 		if r.closed {
+			return TFalse
+		}
+		if r.errAt >= 0 && r.pos == r.errAt {
+			r.closed, r.failed = true, true
 			return TFalse
 		}
 		if r.pos < len(r.rows) {
@@ -80,7 +89,9 @@ func init() {
 		return Iface{}
 	})
 	reg("(*database/sql.Rows).Err", func(m *Machine, fr *frame, a []Value) Value {
-		m.sqlRowsOf(a[0])
+		if m.sqlRowsOf(a[0]).failed {
+			return mkErr(m, CStr("unexpected EOF"))
+		}
 		return Iface{}
 	})
 	reg("(*database/sql.Rows).Columns", func(m *Machine, fr *frame, a []Value) Value {
